@@ -113,7 +113,7 @@ def build_cli_cases(scr, callables, cli_only, seed, thorough):
         inputs=[fix + "/in1.json"], prog_text=open(fix + "/prog_meta.jq").read())
     add("arg-vars", "cli:vars", "--arg/--argjson/--args/$ENV/input_filename",
         ["-c", "--arg", "p", "/etc/passwd", "--argjson", "j", json.dumps({"path": scr + "/canary/secret.txt"}),
-         "[$p, $j, $ARGS, $ENV.HOME, env.PATH, input_filename, $__prog_name?] | tojson", fix + "/in1.json"],
+         "[$p, $j, $ARGS, $ENV.HOME, env.PATH, input_filename] | tojson", fix + "/in1.json"],
         inputs=[fix + "/in1.json"])
     add("args-positional", "cli:vars", "--args positional path-like values",
         ["-n", "-c", "$ARGS.positional | map(ltrimstr(\"/\"), @sh, test(\"etc\"))", "--args"] + [s for _c, s in argv_strs])
@@ -143,7 +143,7 @@ def build_cli_cases(scr, callables, cli_only, seed, thorough):
             add("doc-file-%s-%s" % (fmt, kind), "cli-doc:%s/%s" % (fmt, kind), "file by extension",
                 ["-c", "[.. | strings] | length, (.. | strings | ltrimstr(\"file://\") | @sh)", path], inputs=[path])
             add("doc-stdin-%s-%s" % (fmt, kind), "cli-doc:%s/%s" % (fmt, kind), "--from on stdin",
-                ["--from", fmt, "--to", "yaml" if fmt != "yaml" else "xml", "."], stdin_hex=b.hex())
+                ["--from", fmt, "--to", "yaml" if fmt != "yaml" else "json", "."], stdin_hex=b.hex())
             if thorough:
                 add("doc-slurp-%s-%s" % (fmt, kind), "cli-doc:%s/%s" % (fmt, kind), "--from --slurp file, --to same",
                     ["--from", fmt, "--to", fmt, "-s", ".", path], inputs=[path])
